@@ -22,6 +22,58 @@ PY_LANG = "    - python:\n        generate_json_marshaller: true\n"
 PYTHON = "/usr/bin/python3"
 ID_BASE = 10000
 MC = ("SemanticsDefaultsMC", "SemanticsDefaultsMC.cfg")
+DEEP_MC = ("SemanticsDefaultsDeepMC", "SemanticsDefaultsDeepMC.cfg")      # thorough tier: deeper catalogue, more document families, generated schemas
+DEEP_BASE, GEN_BASE = 20000, 30000
+N_GENERATED = 250
+
+
+# ----------------------------------------------------------------------------------------------
+# tokens: values TLC cannot hold (non-ASCII / escaped strings, integers beyond its 32 bits) travel as tokens in the
+# specification's universe and as the real value through cog, the generated code and the reference validators
+# ----------------------------------------------------------------------------------------------
+STR_TOKENS = {"@uni": "h\u00e9llo \u2713 \u65e5\u672c", "@esc": 'a"b\\c\nd\te'}
+NUM_TOKENS = {7770001: 2 ** 53 + 1, 7770002: 2 ** 31 - 1, -7770002: -2 ** 31, 7770003: 2 ** 63 - 1, -7770003: -2 ** 63,
+              7770004: 2 ** 64 - 1, 7770005: 2 ** 32 - 1, 7770006: 2 ** 24 + 1, 7770007: 3 * 10 ** 9, 7770008: 2 ** 53, -7770008: -2 ** 53}
+_STR_BACK = {v: k for k, v in STR_TOKENS.items()}
+_NUM_BACK = {v: k for k, v in NUM_TOKENS.items()}
+TLC_MAX = 200000000      # 10 * value must stay below 2^31
+
+
+def detok(x):
+    """specification universe -> real value"""
+    if isinstance(x, str):
+        return STR_TOKENS.get(x, x)
+    if isinstance(x, bool) or x is None:
+        return x
+    if isinstance(x, int):
+        return NUM_TOKENS.get(x, x)
+    if isinstance(x, list):
+        return [detok(e) for e in x]
+    if isinstance(x, dict):
+        return {detok(k): detok(v) for k, v in x.items()}
+    return x
+
+
+def tok(x):
+    """real value -> specification universe; a number TLC cannot hold and that is no known token becomes a stand-in token
+    derived from its value (it can then only ever be found different from an expectation)"""
+    if isinstance(x, str):
+        return _STR_BACK.get(x, x)
+    if isinstance(x, bool) or x is None:
+        return x
+    if isinstance(x, (int, float)):
+        exact = x if isinstance(x, int) else int(x) if x.is_integer() else None      # the float's exact integer value
+        if exact in _NUM_BACK:
+            return _NUM_BACK[exact]
+        if abs(x) >= TLC_MAX:
+            return (7780000 + int(abs(x)) % 9973) * (1 if x > 0 else -1)
+        return x
+    if isinstance(x, list):
+        return [tok(e) for e in x]
+    if isinstance(x, dict):
+        return {tok(k): tok(v) for k, v in x.items()}
+    return x
+
 
 
 # ----------------------------------------------------------------------------------------------
@@ -72,24 +124,236 @@ def emit_defaults(ctx, ids):
     return out, r
 
 
-def run_batch(ctx, select, want_cases=False, want_defaults=False, formats=sc.FORMATS, go_flags=None, with_base=True):
+# ----------------------------------------------------------------------------------------------
+# thorough tier: SemanticsDefaultsDeepMC (deep catalogue, Docs + ReKey + ReNum), SemanticsGenMC (seeded simulation)
+# ----------------------------------------------------------------------------------------------
+def load_deep_catalogue(ctx):
+    r = ctx.run_tlc(DEEP_MC[0], DEEP_MC[1], workers=4, timeout=300, files={"gen_schemas.json": b"[]"},
+                    constants={"Mode": '"index"', "Ids": "{}", "Fuel": 3, "Deep": "TRUE"})
+    cat = {o["id"]: o for o in core.tagged_lines(r["out"], "INDEX")}
+    if len(cat) != r["distinct"]:
+        raise core.Inconclusive("SemanticsDefaultsDeepMC index: %d INDEX lines for %d states" % (len(cat), r["distinct"]))
+    os.remove(r["out"])
+    return cat
+
+
+def generate_schemas(ctx, n=N_GENERATED):
+    """Seeded random compositions 3..5 wrappers deep: one `tlc -simulate` run of SemanticsGenMC (seed = --seed); the distinct
+    schemas it printed are sampled deterministically (every wrapper first, then in order of appearance)."""
+    r = ctx.run_tlc("SemanticsGenMC", "SemanticsGenMC.cfg", workers=1, timeout=600, simulate="num=%d" % max(100, n // 2), depth=8)
+    seen, entries = set(), []
+    for e in core.tagged_lines(r["out"], "GEN"):
+        key = sc.dumps(e["schema"])
+        if key not in seen:
+            seen.add(key)
+            entries.append(e)
+    os.remove(r["out"])
+    if len(entries) < n // 2:
+        raise core.Inconclusive("the simulation produced only %d distinct schemas" % len(entries))
+    import random
+    random.Random(ctx.seed).shuffle(entries)
+    chosen, covered = [], set()
+    for e in entries:                      # cover every wrapper / leaf at least once
+        toks = set(e["leaf"].split(">"))
+        if not toks <= covered:
+            chosen.append(e)
+            covered |= toks
+    for e in entries:
+        if len(chosen) >= n:
+            break
+        if e not in chosen:
+            chosen.append(e)
+    chosen = chosen[:n]
+    return {GEN_BASE + i + 1: dict(e, id=GEN_BASE + i + 1) for i, e in enumerate(chosen)}, len(entries), r
+
+
+def _deep_run(ctx, batch, mode, ids, workers, timeout):
+    gen = [batch.cat[i] for i in sorted(batch.cat) if i > GEN_BASE]
+    payload = json.dumps([{k: e[k] for k in ("schema", "leaf", "pos", "cons", "spell")} for e in gen]).encode()
+    return ctx.run_tlc(DEEP_MC[0], DEEP_MC[1], workers=workers, timeout=timeout, files={"gen_schemas.json": payload},
+                       constants={"Mode": '"%s"' % mode, "Ids": _ids(ids), "Fuel": 3, "Deep": "TRUE"})
+
+
+def emit_cases_deep(ctx, batch, ids):
+    r = _deep_run(ctx, batch, "cases", ids, 16, 3000)
+    cases = collections.defaultdict(list)
+    n = 0
+    for c in core.tagged_lines(r["out"], "CASE"):
+        cases[c["id"]].append(c)
+        n += 1
+    if n != r["distinct"]:
+        raise core.Inconclusive("SemanticsDefaultsDeepMC cases: %d CASE lines for %d states" % (n, r["distinct"]))
+    os.remove(r["out"])
+    for i in cases:
+        cases[i].sort(key=lambda c: (c["f"] != "base", c["f"], c["p"], sc.dumps(c["doc"])))
+        for k, c in enumerate(cases[i]):
+            c["n"] = k
+            c["py"] = sc.jv_to_py(c["doc"])
+    return cases, r
+
+
+def emit_defaults_deep(ctx, batch, ids):
+    r = _deep_run(ctx, batch, "defaults", ids, 8, 1200)
+    out = collections.defaultdict(dict)
+    n = 0
+    for d in core.tagged_lines(r["out"], "DEFAULT"):
+        out[d["id"]][d["obj"]] = {"doc": sc.jv_to_py(d["doc"]), "full": None if d["full"]["j"] == "none" else sc.jv_to_py(d["full"])}
+        n += 1
+    if n != r["distinct"]:
+        raise core.Inconclusive("SemanticsDefaultsDeepMC defaults: %d DEFAULT lines for %d states" % (n, r["distinct"]))
+    os.remove(r["out"])
+    return out, r
+
+
+# ---- schema TEXT post-processing: tokens -> real values, alternative spellings of numeric defaults
+def _spell(x, spell):
+    neg = "-" if x < 0 else ""
+    a = abs(x)
+    if spell == "dot0":
+        return "%s%d.0" % (neg, a) if float(a).is_integer() else "%s%s0" % (neg, repr(float(a)))
+    if spell == "exp":
+        return "%s%de0" % (neg, a) if float(a).is_integer() else "%s%de-1" % (neg, round(a * 10))
+    if spell == "negzero":
+        if a != 0:
+            raise sc.NotExpressible("negative zero of a non-zero number")
+        return "-0" if isinstance(x, int) else "-0.0"
+    raise ValueError(spell)
+
+
+def _json_text(text, spell):
+    doc = detok(json.loads(text))
+    if spell == "plain":
+        return json.dumps(doc, indent=1)
+    nums = []
+
+    def mark(v):
+        if isinstance(v, bool):
+            return v
+        if isinstance(v, (int, float)):
+            nums.append(v)
+            return "@@N%d@@" % (len(nums) - 1)
+        if isinstance(v, list):
+            return [mark(e) for e in v]
+        if isinstance(v, dict):
+            return {k: mark(e) for k, e in v.items()}
+        return v
+
+    def walk(node):
+        if isinstance(node, dict):
+            for k in list(node):
+                if k in ("default", "const") or (k == "enum" and all(isinstance(e, (int, float)) and not isinstance(e, bool) for e in node[k])):
+                    node[k] = mark(node[k])
+                else:
+                    walk(node[k])
+        elif isinstance(node, list):
+            for e in node:
+                walk(e)
+    walk(doc)
+    out = json.dumps(doc, indent=1)
+    for i, v in enumerate(nums):
+        out = out.replace('"@@N%d@@"' % i, _spell(v, spell))
+    return out
+
+
+_CUE_FLOAT_INT_DEFAULT = re.compile(r"(float(?:32|64)\)?(?: \| null)? \| \*)(-?\d+)(?![\d.eE])")
+_CUE_NUM = re.compile(r"-?\d+(?:\.\d+)?")
+
+
+def _cue_text(text, spell):
+    for t, real in STR_TOKENS.items():
+        text = text.replace(json.dumps(t), json.dumps(real))
+    for t, real in NUM_TOKENS.items():
+        text = re.sub(r"(?<![\w.])%s(?![\w.])" % re.escape(str(t)), str(real), text)
+    # a nullable field with a default: the flat disjunction `T | null | *d` (cog rejects the parenthesised `(T | null) | *d` with
+    # "unexpected node with kind '(null|T)'" - same CUE value, the flat one is the spelling it reads)
+    text = re.sub(r"(?m)^(\s*\w+\??: )\((.+) \| null\) \| \*", r"\1\2 | null | *", text)
+    # CUE tells 2 from 2.0: the default of a float-typed field is spelled as a float
+    text = _CUE_FLOAT_INT_DEFAULT.sub(lambda m: m.group(1) + m.group(2) + ".0", text)
+    if spell == "plain":
+        return text
+    lines = text.split("\n")
+    hit = 0
+    for i, ln in enumerate(lines):
+        if " | *" not in ln:
+            continue
+        head, dflt = ln.rsplit(" | *", 1)
+        is_float = "float" in head
+        def sub(m):
+            lit = m.group(0)
+            v = float(lit) if "." in lit else int(lit)
+            if not is_float:
+                if spell != "negzero":
+                    raise sc.NotExpressible("cue: an integer has one spelling")
+                return _spell(v, spell)
+            return _spell(float(v), spell)
+        lines[i] = head + " | *" + _CUE_NUM.sub(sub, dflt)
+        hit += 1
+    if not hit:
+        raise sc.NotExpressible("cue: no default to respell (constants are spelled as the type itself)")
+    return "\n".join(lines)
+
+
+def ref_validate(ctx, batch, items):
+    """sc.ref_validate, with one adaptation: kin-openapi only resolves discriminator.mapping values written as references, cog only reads
+    schema NAMES. The validator is handed the same document without the mapping (oneOf over branches whose discriminator values are
+    disjoint accepts exactly the same documents)."""
+    swapped = {}
+    for pkg, _ in items:
+        u = batch.units[pkg]
+        if u["fmt"] == "openapi" and '"mapping"' in u.get("text", ""):
+            doc = json.loads(u["text"])
+
+            def strip(node):
+                if isinstance(node, dict):
+                    if isinstance(node.get("discriminator"), dict):
+                        node["discriminator"].pop("mapping", None)
+                    for v in node.values():
+                        strip(v)
+                elif isinstance(node, list):
+                    for v in node:
+                        strip(v)
+            strip(doc)
+            swapped[pkg] = u["text"]
+            u["text"] = json.dumps(doc, indent=1)
+    try:
+        return sc.ref_validate(ctx, batch, items)
+    finally:
+        for pkg, text in swapped.items():
+            batch.units[pkg]["text"] = text
+
+
+def make_render_hook(batch):
+    def hook(sid, fmt, pkg, text):
+        spell = batch.cat[sid].get("spell", "plain")
+        return _cue_text(text, spell) if fmt == "cue" else _json_text(text, spell)
+    return hook
+
+
+def run_batch(ctx, select, want_cases=False, want_defaults=False, formats=sc.FORMATS, go_flags=None, with_base=True, deep=False,
+              n_generated=N_GENERATED):
     """select(cat) -> ids, over the union of both catalogues. Returns a sc.Batch with .defaults / .py_* extras."""
     if ctx.worker is None:
         ctx.build_worker()
     b = sc.Batch()
     b.cat = dict(sc.load_catalogue(ctx)) if with_base else {}
     b.cat.update(load_def_catalogue(ctx))
+    b.render_hook = make_render_hook(b)
+    b.generated_pool = 0
+    if deep:
+        b.cat.update(load_deep_catalogue(ctx))
+        gen, b.generated_pool, _ = generate_schemas(ctx, n_generated)
+        b.cat.update(gen)
     b.ids = sorted(select(b.cat))
     if not b.ids:
         raise core.Inconclusive("no schema selected")
     b.cases, b.defaults = {}, {}
     if want_cases:
-        b.cases, b.tlc_cases = emit_cases(ctx, b.ids)
+        b.cases, b.tlc_cases = emit_cases_deep(ctx, b, b.ids) if deep else emit_cases(ctx, b.ids)
         missing = [i for i in b.ids if not b.cases.get(i)]
         if missing:
             raise core.Inconclusive("no documents for schemas %s" % missing[:5])
     if want_defaults:
-        b.defaults, _ = emit_defaults(ctx, b.ids)
+        b.defaults, _ = emit_defaults_deep(ctx, b, b.ids) if deep else emit_defaults(ctx, b.ids)
         missing = [i for i in b.ids if b.cat[i]["schema"]["root"] not in b.defaults.get(i, {})]
         if missing:
             raise core.Inconclusive("no DefaultDoc for schemas %s" % missing[:5])
@@ -195,11 +459,7 @@ def overlay(a, b):
 def value_for(S, t, d):
     r = sc.resolve(S, t)
     if r["k"] == "struct" and isinstance(d, dict):
-        ov = {}
-        for k, v in d.items():
-            f = _field(r, k)
-            ov[k] = v if f is None else value_for(S, f["t"], v)
-        return overlay(default_doc(S, r), ov)
+        return overlay(default_doc(S, r), d)
     return d
 
 
@@ -221,7 +481,7 @@ def holds(e, r):
 
 def absent_ok(S, f):
     """reading rule: an optional field whose declared default is an empty collection may be absent"""
-    return not f["req"] and field_expect(S, f) in ([], {})
+    return not f["req"] and (field_expect(S, f) in ([], {}) or (has_default(f) and sc.jv_to_py(f["def"]) in ([], {})))
 
 
 def field_holds(S, f, v):
@@ -231,6 +491,74 @@ def field_holds(S, f, v):
 _ABSENT = object()
 
 
+def inside_paths(S, r, e, v, path):
+    if not isinstance(v, dict):
+        return {path}
+    out = set()
+    for k, ev in e.items():
+        g = _field(r, k)
+        if g is None:
+            if not (k in v and holds(ev, v[k])):
+                out.add(path + (k,))
+            continue
+        rg = sc.resolve(S, g["t"])
+        if k not in v:
+            if not (not g["req"] and (ev in ([], {}) or (has_default(g) and sc.jv_to_py(g["def"]) in ([], {})))):
+                out.add(path + (k,))
+        elif rg["k"] == "struct" and isinstance(ev, dict):
+            out |= inside_paths(S, rg, ev, v[k], path + (k,))
+        elif not holds(ev, v[k]):
+            out.add(path + (k,))
+    return out
+
+
+def expected_at(S, t, path):
+    """the value the specification demands at a FailPaths path: the (merged) expectation of the first constrained field on it"""
+    for i, seg in enumerate(path):
+        t = sc.resolve(S, t)
+        f = _field(t, seg)
+        if f is None:
+            return None
+        if constrained(S, f):
+            ok, e = dig(field_expect(S, f), path[i + 1:])
+            return e if ok else None
+        t = f["t"]
+    return None
+
+
+def nullable_on(S, t, path):
+    for seg in path:
+        t = sc.resolve(S, t)
+        f = _field(t, seg) if t["k"] == "struct" else None
+        if f is None:
+            return False
+        if f["null"]:
+            return True
+        t = f["t"]
+    return False
+
+
+def report_path(S, t, path):
+    """Where a failing path is REPORTED: a member inside a struct-valued default is reported for itself when it declares its own
+    default / constant and the enclosing default does not override it (the defect is about that member's value type), otherwise at
+    the field that declares the struct default (the override was lost)."""
+    tt = t
+    for i, seg in enumerate(path):
+        tt = sc.resolve(S, tt)
+        f = _field(tt, seg)
+        if f is None:
+            return path
+        if constrained(S, f):
+            if i == len(path) - 1:
+                return path
+            g, _, _ = field_at(S, t, path)
+            if g is not None and constrained(S, g) and sc.json_equal(field_expect(S, g), expected_at(S, t, path)):
+                return path
+            return path[:i + 1]
+        tt = f["t"]
+    return path
+
+
 def fail_paths(S, t, v, path=()):
     if not isinstance(v, dict):
         return {path}
@@ -238,7 +566,10 @@ def fail_paths(S, t, v, path=()):
     for f in t["fields"]:
         r = sc.resolve(S, f["t"])
         if constrained(S, f):
-            if not field_holds(S, f, v):
+            e = field_expect(S, f)
+            if r["k"] == "struct" and has_default(f) and isinstance(e, dict) and f["n"] in v:
+                out |= inside_paths(S, r, e, v[f["n"]], path + (f["n"],))
+            elif not field_holds(S, f, v):
                 out.add(path + (f["n"],))
         elif r["k"] == "struct" and isinstance(v.get(f["n"]), dict):
             out |= fail_paths(S, r, v[f["n"]], path + (f["n"],))
@@ -294,25 +625,33 @@ def value_type(S, f):
     union branch) + constants; falsy defaults are kept apart (false / 0 / [] are the classic `if default` victims)."""
     r = sc.resolve(S, f["t"])
     k = r["k"]
+    if not constrained(S, f):
+        return "struct-override"       # a member that only the enclosing struct default sets
     if k == "const":
-        return "constant-" + _jname(sc.jv_to_py(r["v"]))
+        c = sc.jv_to_py(r["v"])
+        if f["t"]["k"] == "ref":
+            return "constant-alias-" + _jname(c)          # the constant is a named object, the field refers to it
+        return "constant-" + _jname(c) + ("-big" if _is_num(c) and abs(c) >= 7770000 else "") + ("-with-default" if has_default(f) else "")
     d = sc.jv_to_py(f["def"])
+    if f["t"]["k"] == "ref" and S[f["t"]["name"]]["k"] not in ("struct", "enum", "ienum"):
+        # a named non-struct type (alias), possibly of another alias
+        return ("enum-alias-member" if k in ("enum", "ienum") else "alias-struct-override" if k == "struct" else "alias-" + _SCALAR_NAME.get(k, k))
     if k == "bool":
         return "bool" if d else "bool-false"
     if k == "int":
-        return "integer-negative" if d < 0 else "integer" if d != 0 else "integer-zero"
+        return "integer-big" if abs(d) >= 7770000 else "integer-negative" if d < 0 else "integer" if d != 0 else "integer-zero"
     if k == "num":
-        return "float-negative" if d < 0 else "float"
+        return "float-negative" if d < 0 else "float-zero" if d == 0 else "float-integral" if float(d).is_integer() else "float"
     if k in ("str", "time"):
-        return "string"
+        return "string-empty" if d == "" else "string" if (d.isascii() and d.isalnum()) else "string-special"
     if k == "enum":
         return "enum-ref-member" if f["t"]["k"] == "ref" else "enum-member"
     if k == "ienum":
-        return "int-enum-member"
+        return "int-enum-big-member" if abs(d) >= 7770000 else "int-enum-member"
     if k == "arr":
         return "list-empty" if d == [] else "list-" + _SCALAR_NAME.get(sc.resolve(S, r["t"])["k"], "other")
     if k == "struct":
-        return "struct-override"
+        return "struct-override" if d else "struct-empty-override"
     if k == "union":
         return "union-branch-" + _jname(d)
     if k == "dunion":
@@ -322,7 +661,9 @@ def value_type(S, f):
 
 VALUE_TYPES = ("bool", "integer", "float", "string", "enum-member", "list-string", "struct-override", "union-branch-string")
 # signature value types: falsy defaults and the branch kind of a scalar union are witnesses of the same value type
-SIG_TYPE = {"bool-false": "bool", "integer-zero": "integer", "integer-negative": "integer", "float-negative": "float", "union-branch-string": "union-branch-scalar",
+SIG_TYPE = {"bool-false": "bool", "integer-zero": "integer", "integer-negative": "integer", "float-negative": "float",
+            "float-zero": "float", "float-integral": "float", "struct-empty-override": "struct-override",
+            "alias-struct-override": "struct-override", "union-branch-string": "union-branch-scalar",
             "union-branch-integer": "union-branch-scalar", "union-branch-bool": "union-branch-scalar", "union-branch-float": "union-branch-scalar"}
 
 
@@ -349,6 +690,8 @@ def clause_of(S, f, expected, has, real):
         return "dropped"
     if r["k"] == "dunion" and isinstance(real, dict) and isinstance(expected, dict) and real.get(r["disc"]) != expected.get(r["disc"]):
         return "dropped"
+    if r["k"] == "struct" and isinstance(real, dict) and isinstance(expected, dict) and holds(default_doc(S, r), real):
+        return "dropped"          # the struct's own defaults, without the declared overrides
     if _retyped(expected, real):
         return "retyped"
     return "altered"
@@ -391,6 +734,18 @@ class PyTraceWriter(sc.TraceWriter):
         self.add((pkg, c["n"]), {"kind": "pyrt", "si": self.si(u["id"]), "pkg": pkg, "n": c["n"], "doc": c["doc"],
                                  "judge": {"accepted": accepted},
                                  "real": {"pyOK": py_ok, "py": pj, "hasGo": has_go, "go": gj}})
+        return True
+
+    def add_cross(self, pkg, c, src, accepted, ok, out):
+        """src: what one SDK wrote (token space); out: what the other SDK wrote after reading it"""
+        u = self.batch.units[pkg]
+        try:
+            sj = sc.py_to_jv(src)
+            oj = sc.py_to_jv(out) if ok else NONE
+        except sc.NotInUniverse:
+            return False
+        self.add((pkg, c["n"], "cross"), {"kind": "cross", "si": self.si(u["id"]), "pkg": pkg, "n": c["n"], "src": sj,
+                                          "judge": {"accepted": accepted}, "real": {"ok": ok, "out": oj}})
         return True
 
     def validate(self, strict=False, allow_violation=False):
